@@ -312,3 +312,40 @@ def propagated_error(t):
             x = look(x[2][0])
         else:
             return x, err
+
+
+def tested_call(t, c):
+    """For a branch condition (t, c) on the discriminant of the Result/Option returned by a call -- directly
+    (match / if let) or through `?`, with map_err / ok_or in between: (call term, 'ok' | 'err' | None)."""
+    if t[0] != "discr":
+        return None, None
+    y = look(t[1])
+    via = False
+    if is_call(y, "branch") and y[2]:
+        y = look(y[2][0])
+        via = True
+    while is_call(y, "map_err", "ok_or", "ok_or_else") and y[2] and y[1].split("::")[0] in ("std", "core"):
+        y = look(y[2][0])
+    if y[0] != "call":
+        return None, None
+    if via:
+        out = "ok" if c == ("eq", 0) else ("err" if c in (("eq", 1), ("ne", (0,))) else None)
+        return y, out
+    # Result: 0 = Ok, 1 = Err;  Option: 0 = None, 1 = Some -- the caller knows which one it is
+    return y, ("d0" if (c == ("eq", 0) or (c[0] == "ne" and 1 in c[1] and 0 not in c[1])) else "d1" if (c == ("eq", 1) or (c[0] == "ne" and 0 in c[1] and 1 not in c[1])) else None)
+
+
+def result_test(t, c, pred):
+    """'ok' / 'err' / None when (t, c) tests the Result returned by a call satisfying pred."""
+    y, out = tested_call(t, c)
+    if y is None or not pred(y):
+        return None
+    return {"d0": "ok", "d1": "err"}.get(out, out)
+
+
+def option_test(t, c, pred):
+    """'some' / 'none' / None when (t, c) tests the Option returned by a call satisfying pred."""
+    y, out = tested_call(t, c)
+    if y is None or not pred(y):
+        return None
+    return {"d0": "none", "d1": "some", "ok": "some", "err": "none"}.get(out)
